@@ -30,7 +30,8 @@
 //! ```
 use ironplc_dsl::{
     common::*,
-    core::Located,
+    configuration::ProgramConnectionSourceKind,
+    core::{Id, Located},
     diagnostic::{Diagnostic, Label},
     visitor::Visitor,
 };
@@ -52,19 +53,60 @@ pub fn apply(lib: &Library) -> SemanticResult {
         }
     }
 
+    // Collect the values of all enumerations, including those that are
+    // declared inline with a variable
+    let mut finder = FindEnumeratedValues {
+        values: HashSet::new(),
+    };
+    finder.walk(lib).map_err(|e| vec![e])?;
+
     // Walk the library to find all references to enumerations
     // checking that all references use an enumeration value
     // that is part of the enumeration
-    let mut visitor = RuleDeclaredEnumeratedValues::new(&enum_defs);
+    let mut visitor = RuleDeclaredEnumeratedValues::new(&enum_defs, &finder.values);
     visitor.walk(lib).map_err(|e| vec![e])
+}
+
+struct FindEnumeratedValues {
+    values: HashSet<Id>,
+}
+impl Visitor<Diagnostic> for FindEnumeratedValues {
+    type Value = ();
+
+    fn visit_enumerated_specification_values(
+        &mut self,
+        node: &EnumeratedSpecificationValues,
+    ) -> Result<Self::Value, Diagnostic> {
+        for item in node.values.iter() {
+            self.values.insert(item.value.clone());
+        }
+        Ok(())
+    }
+
+    fn visit_enumerated_values_initializer(
+        &mut self,
+        node: &EnumeratedValuesInitializer,
+    ) -> Result<Self::Value, Diagnostic> {
+        for item in node.values.iter() {
+            self.values.insert(item.value.clone());
+        }
+        Ok(())
+    }
 }
 
 struct RuleDeclaredEnumeratedValues<'a> {
     enum_defs: &'a HashMap<Type, &'a EnumerationDeclaration>,
+    all_values: &'a HashSet<Id>,
 }
 impl<'a> RuleDeclaredEnumeratedValues<'a> {
-    fn new(enum_defs: &'a HashMap<Type, &'a EnumerationDeclaration>) -> Self {
-        RuleDeclaredEnumeratedValues { enum_defs }
+    fn new(
+        enum_defs: &'a HashMap<Type, &'a EnumerationDeclaration>,
+        all_values: &'a HashSet<Id>,
+    ) -> Self {
+        RuleDeclaredEnumeratedValues {
+            enum_defs,
+            all_values,
+        }
     }
 
     /// Returns enumeration values for a given enumeration type name.
@@ -161,6 +203,47 @@ impl Visitor<Diagnostic> for RuleDeclaredEnumeratedValues<'_> {
         if let Some(value) = &node.spec_init.default {
             let defined_values = self.find_enum_declaration_values(&node.type_name)?;
             self.check_defined(defined_values, value)?;
+        }
+        node.recurse_visit(self)
+    }
+
+    fn visit_enumerated_values_initializer(
+        &mut self,
+        node: &EnumeratedValuesInitializer,
+    ) -> Result<Self::Value, Diagnostic> {
+        // The initial value of a variable having an inline enumeration
+        // must be one of the values
+        if let Some(value) = &node.initial_value {
+            self.check_defined(&node.values, value)?;
+        }
+        node.recurse_visit(self)
+    }
+
+    fn visit_program_connection_source_kind(
+        &mut self,
+        node: &ProgramConnectionSourceKind,
+    ) -> Result<Self::Value, Diagnostic> {
+        match node {
+            // The parser cannot tell a name of a global variable from an
+            // enumeration value, so this is not necessarily an enumeration value.
+            ProgramConnectionSourceKind::EnumeratedValue(_) => Ok(()),
+            _ => node.recurse_visit(self),
+        }
+    }
+
+    fn visit_enumerated_value(
+        &mut self,
+        node: &EnumeratedValue,
+    ) -> Result<Self::Value, Diagnostic> {
+        // An enumeration value where the type of the enumeration is not
+        // known (such as in an expression) must at least be a value of
+        // some enumeration.
+        if !self.all_values.contains(&node.value) {
+            return Err(Diagnostic::problem(
+                Problem::EnumValueNotDefined,
+                Label::span(node.span(), "Expected value in enumeration"),
+            )
+            .with_context_id("value", &node.value));
         }
         node.recurse_visit(self)
     }
